@@ -153,3 +153,5 @@ Theorem C20_gmp_interleaved_use_not_reproducible : ~ Gmp_interleaved_stmt. Proof
 Print Assumptions C20_gmp_interleaved_use_not_reproducible.
 Theorem C20_integer_native_overloads_are_bit_sizes : Native_overloads_stmt. Proof. exact native_overloads. Qed.
 Print Assumptions C20_integer_native_overloads_are_bit_sizes.
+Theorem C20_extension_randiter_constructor : Ext_randiter_ctor_stmt. Proof. exact ext_randiter_ctor_thm. Qed.
+Print Assumptions C20_extension_randiter_constructor.
